@@ -114,6 +114,9 @@ pub struct Cfg {
     /// allow `BigJump` steps (jumps of about 2^30 ticks with a full refresh of every live tick)
     #[serde(default)]
     pub big_jumps: bool,
+    /// every client is connected before the first generated step (otherwise only client 0)
+    #[serde(default)]
+    pub connect_all: bool,
 }
 
 impl Default for Cfg {
@@ -141,6 +144,7 @@ impl Default for Cfg {
             no_exclusions: false,
             start_tick: 0,
             big_jumps: false,
+            connect_all: false,
         }
     }
 }
